@@ -137,6 +137,10 @@ Proof.
   intros. unfold set_delslice. destruct (order_of s i); auto. apply hk_bind; [apply hk_remove_all|].
   intros s1 H. simpl. rewrite hk_set_order. exact H.
 Qed.
+Lemma hk_set_delitem : forall s i z, hk (fst (set_delitem c s i z)) = hk s.
+Proof.
+  intros. unfold set_delitem. destruct (order_of s i); auto. destruct (py_idx _ z); auto. apply hk_set_delslice.
+Qed.
 Lemma hk_add_each : forall es s i, hk (fst (add_each c s i es)) = hk s.
 Proof.
   induction es as [|e r IH]; intros s i; simpl; auto. apply hk_bind; [apply hk_set_add|].
@@ -170,23 +174,23 @@ Proof.
   destruct o3; simpl; congruence.
 Qed.
 
-Lemma hk_construct_one : forall s o ordered h items,
-  hk (fst (construct_one c s o ordered h items)) = hk s ++ [h].
+Lemma hk_construct_one : forall s o ordered h items fails,
+  hk (fst (construct_one c s o ordered h items fails)) = hk s ++ [h].
 Proof.
   intros. unfold construct_one.
   set (s0 := mkstate (sets s ++ [mkset o h [] (if ordered then Some [] else None)]) (elems s) (gen s)).
   assert (H0 : hk s0 = hk s ++ [h]). { unfold hk, s0. simpl. rewrite map_app. reflexivity. }
   assert (H := hk_add_each items s0 (List.length (sets s))).
-  destruct (add_each c s0 (List.length (sets s)) items) as [s1 o1]. simpl in H. destruct o1; simpl; try congruence.
-  rewrite hk_set_clear. congruence.
+  destruct (add_each c s0 (List.length (sets s)) items) as [s1 o1]. simpl in H.
+  destruct o1; try destruct fails; simpl; rewrite ?hk_set_clear; congruence.
 Qed.
 Lemma hk_construct : forall itemss s o ordered h,
   exists n, hk (fst (construct c s o ordered h itemss)) = hk s ++ repeat h n.
 Proof.
-  induction itemss as [|items r IH]; intros s o ordered h; simpl.
+  induction itemss as [|[items fails] r IH]; intros s o ordered h; simpl.
   - exists 0. simpl. rewrite app_nil_r. reflexivity.
-  - assert (H := hk_construct_one s o ordered h items).
-    destruct (construct_one c s o ordered h items) as [s1 o1]. simpl in H. unfold bind. destruct o1.
+  - assert (H := hk_construct_one s o ordered h items fails).
+    destruct (construct_one c s o ordered h items fails) as [s1 o1]. simpl in H. unfold bind. destruct o1.
     + destruct (IH s1 o ordered h) as [n Hn]. exists (S n). rewrite Hn, H. simpl. rewrite <- app_assoc. reflexivity.
     + destruct (IH s1 o ordered h) as [n Hn]. exists (S n). rewrite Hn, H. simpl. rewrite <- app_assoc. reflexivity.
     + exists 1. simpl. exact H.
@@ -213,7 +217,9 @@ Proof.
 Qed.
 Lemma hk_rename : forall s e nk, hk (fst (rename c s e nk)) = hk s.
 Proof.
-  intros. unfold rename. destruct (c_attr c).
+  intros. unfold rename. destruct (key_check c nk).
+  { destruct (match c_attr c with AId => okey_eqb nk (e_key (elems s e)) | _ => false end); auto. }
+  destruct (c_attr c).
   - destruct (okey_eqb nk (e_key (elems s e))); auto. destruct (e_parent (elems s e)); auto.
     destruct nk; auto. destruct (owner_is_list s n); auto. destruct (owner_has_key c s n k); auto.
     apply hk_rekey. reflexivity.
@@ -258,7 +264,7 @@ Proof.
   destruct p; simpl;
     try (rewrite hk_at_set; [exact H|intro; first [apply hk_set_add|apply hk_set_remove|apply hk_set_discard|apply hk_set_pop
          |apply hk_set_pop_at|apply hk_set_clear|apply hk_set_insert|apply hk_set_setitem|apply hk_set_setslice
-         |apply hk_set_delslice|apply hk_set_value|apply hk_set_extend]]).
+         |apply hk_set_delslice|apply hk_set_delitem|apply hk_set_value|apply hk_set_extend]]).
   - destruct (hk_construct itemss s o ordered hk0) as [n Hn]. rewrite Hn. apply Forall_app. split; auto.
     apply Forall_forall. intros h X. apply repeat_spec in X. subst h. simpl in W. destruct hk0; auto. contradiction.
   - rewrite hk_rename. exact H.
